@@ -269,9 +269,54 @@ def make_allops(kind, base):
     return lem
 
 
+def make_pairs(m1):
+    """two edits in a row with a read of every view in between (the 'read, edit, read again' pattern, twice)"""
+    name1 = MUTATORS[m1]
+
+    def lem(base: int, m2: int) -> bool:
+        """
+        pre: 0 <= base < 6 and 0 <= m2 < 21
+        post: _
+        """
+        base, m2 = pin(base, 0, 5), pin(m2, 0, len(MUTATORS) - 1)
+        with native():
+            name2 = MUTATORS[m2]
+            n = NOPS[base]
+            idx = sorted({0, 1, n // 2, n - 1, -1})
+            for i1 in (idx if name1 in USES_I else [0]):
+                for i2 in (idx if name2 in USES_I else [0]):
+                    for pay in ((1, 2) if (name1 in USES_PAY or name2 in USES_PAY) else (0,)):
+                        p = Pickled.load(BASES[base])
+                        views(p)
+                        try:
+                            apply(p, name1, i1, i1 + 2, pay)
+                        except Exception:
+                            pass
+                        first = views(p)
+                        if first != views(Pickled(list(p))):
+                            return False
+                        try:
+                            apply(p, name2, i2, i2 + 2, (pay + 3) % 7)
+                        except Exception:
+                            pass
+                        rt.reach()
+                        if views(p) != views(Pickled(list(p))):
+                            return False
+            return True
+
+    lem.__name__ = lem.__qualname__ = "pairs_" + name1
+    return lem
+
+
 def lemmas(tier):
     q = tier == "quick"
     L = []
+    for m1 in range(len(MUTATORS)):
+        fn = make_pairs(m1)
+        L.append(Lemma(fn.__name__, fn, timeout=300 if q else 1500, dry=[{"base": 1, "m2": 3}, {"base": 4, "m2": 12}],
+                       doc={"F": ["solver-partitioned: base (6) x second mutator (21); first mutator = " + MUTATORS[m1],
+                                  "enumerated per cell: indices {0, 1, n/2, n-1, -1} for each edit, 2 payloads; every view is read before, between and after the edits"],
+                            "bound": "two edits"}))
     for kind in range(3):
         for base in range(2):
             fn = make_allops(kind, base)
